@@ -576,7 +576,7 @@ pub fn run(part: &mut Part) {
             part.stats.merge(stats);
             part.bounds = json!({"profiles": descr, "configurations": C14_CONFIGS.iter().map(|c| c.name()).collect::<Vec<_>>()});
             part.stats.sample(|| json!("every sequence of bounds.profiles was executed under each of the 7 configurations"));
-            part.rule = "every op sequence of the stated depth (explicit persist calls are letters) executed under 7 policy/clock configurations (virtual clock: OnDelay never expiring, always expired, expired at alternating ops); return values (positions, eviction counts, errors) and observable states must agree with the first configuration after every op and after drop + open".into();
+            part.rule = "every op sequence of the stated depth (explicit persist calls are letters) executed under 11 policy/clock configurations (virtual clock: OnDelay never expiring, always expired, elapsing before every second op (both parities) and before every third op (three phases)); return values (positions, eviction counts, errors) and observable states must agree with the first configuration after every op and after drop + open".into();
             part.require_outcomes(&["persisted", "appended", "truncated-n", "deleted"]);
         }
         "C18" => {
